@@ -801,6 +801,10 @@ PROFILES = {
     # streams aimed AT the known findings (their failures must be the listed ones)
     "f2": dict(avoid_f2=False, avoid_f3=True),
     "f3": dict(avoid_f2=True, avoid_f3=False),
+    # aggregate pressure (tools/gen/aggrgen.py): many live multi-word values, writes into their middles, single-word results
+    # of stateful operations in between, every leaf read back at the end
+    "aggr": dict(gen="aggr"),
+    "aggr_nofn": dict(gen="aggr", fn_fields=False),
 }
 
 
@@ -837,7 +841,11 @@ MAX_COST = 40000
 def make_case(seed, idx, profile="core", times=24):
     for attempt in range(50):
         r = Rng((seed << 20) ^ idx ^ (hash_name(profile) << 40) ^ (attempt << 52))
-        g = Gen(r, dict(PROFILES[profile]))
+        if PROFILES[profile].get("gen") == "aggr":
+            import aggrgen
+            g = aggrgen.AggrGen(r, dict(PROFILES[profile]))
+        else:
+            g = Gen(r, dict(PROFILES[profile]))
         p = g.gen_prog()
         if est_cost(p) <= MAX_COST:
             break
